@@ -106,6 +106,16 @@ Theorem C36_fuse_partial (l : list (cgeom R)) (c : vec3 R) : sumM l <> 0 ->
 Proof. exact (lumped_equivalent l c). Qed.
 Print Assumptions C36_fuse_partial.
 
+(* ---- degrees versus radians for the angle-valued joint attributes (mjCJoint::Compile): with compiler.degree the limit range
+   of a limited HINGE or BALL joint written in degrees (x*180/pi) compiles to x, exactly what the radian spelling gives; ref and
+   springref likewise for hinge joints; slide (lengths), free and unlimited joints are copied unchanged in both spellings *)
+Theorem C36_joint_degree (jtype : Z) (limited : bool) (lo hi x : R) :
+  (jointRange true jtype limited (if (limited && ((jtype =? 3)%Z || (jtype =? 1)%Z))%bool then (lo * 180 / PI, hi * 180 / PI) else (lo, hi))
+   = (lo, hi) /\ jointRange false jtype limited (lo, hi) = (lo, hi)) /\
+  (jointRef true jtype (if (jtype =? 3)%Z then x * 180 / PI else x) = x /\ jointRef false jtype x = x).
+Proof. split; [exact (jointRange_degree jtype limited lo hi) | exact (jointRef_degree jtype x)]. Qed.
+Print Assumptions C36_joint_degree.
+
 (* the premises are satisfiable *)
 Example C36_example_unit : unitq (/ 2, / 2, / 2, / 2) /\ Forall validEuler ["x"%char; "Y"%char; "z"%char] /\
   mjEPS <= dot3 (0, 0, 2) (0, 0, 2) /\ mjEPS < Rabs (norm3 (0, 0, 2) - 1) /\ unitp ((1, 2, 3), (/ 2, / 2, - / 2, / 2)).
